@@ -326,6 +326,28 @@ def _declared_per_prefix_binding(ctx: Ctx) -> None:
                        "(the native writer then writes it unprefixed; lxml declares it itself - the two writers disagree)")
 
 
+def _attr_namespace_registrations(flush: FuncInfo) -> list[tuple[object, set[str]]]:
+    """Where flush_start hands the pending attributes' namespaces to a method of the handler: (CFG node, handler methods referenced) - a loop
+    over self.attrs that calls self.<m>(...), or a statement that maps / applies self.<m> over something derived from self.attrs."""
+    g = build_cfg(flush.node)
+    out: list[tuple[object, set[str]]] = []
+    for n in g.nodes:
+        if n.ast is None:
+            continue
+        if n.kind == "for" and any("self.attrs" in t for t in value_texts(flush, n, n.ast.iter)):
+            ms = {c.func.attr for b in n.ast.body for c in calls_in(b) if is_self_attr(c.func, None)}
+            if ms:
+                out.append((n, ms))
+        elif n.kind == "stmt" and not isinstance(n.ast, (ast.For, ast.If, ast.While, ast.Try, ast.With)):
+            refs = {x.attr for x in ast.walk(n.ast) if is_self_attr(x, None) and isinstance(x.ctx, ast.Load)}
+            names = [x for x in ast.walk(n.ast) if isinstance(x, (ast.Name, ast.Attribute)) and isinstance(getattr(x, "ctx", None), ast.Load)]
+            if any("self.attrs" in t for x in names for t in value_texts(flush, n, x)) and any(isinstance(c, ast.Call) for c in ast.walk(n.ast)):
+                ms = {r for r in refs if r not in ("attrs",)}
+                if ms and not isinstance(n.ast, ast.Assign):
+                    out.append((n, ms))
+    return out
+
+
 @rule("C03.R3")
 def declare_before_use(ctx: Ctx) -> None:
     """Every call that may bind a prefix dominates start_namespaces(), which dominates start_element()."""
@@ -355,10 +377,11 @@ def declare_before_use(ctx: Ctx) -> None:
                        msg="a prefix may be bound after the element's declarations were already sent (prefix used but undeclared)")
     ctx.floor("prefix-binding calls in flush_start", count, 2)
     # the loop over attrs registering their namespaces precedes start_namespaces on every path
-    attr_ns = [n for n in g.stmts() if n.kind == "for" and "self.attrs" in unparse(n.ast.iter)]
+    regs = _attr_namespace_registrations(flush)
+    attr_ns = [n for n, _ in regs]
+    binder_names = {b.split(".")[-1] for b in binders}
     ctx.ob("flush_start: attribute namespaces are registered before start_namespaces()", bool(attr_ns) and all(
-        g.must_pass(g.entry, s.id, [a.id for a in attr_ns]) for s in sn) and any(
-        _may_bind_prefix(ctx, flush, c, set(binders)) for a in attr_ns for c in calls_in(a.ast)), at=flush, construct="attrs namespace loop",
+        g.must_pass(g.entry, s.id, [a.id for a in attr_ns]) for s in sn) and any(m in binder_names for _, ms in regs for m in ms), at=flush, construct="attrs namespace loop",
         msg="attribute namespaces are not all given a prefix before declarations are sent")
     rd = [n for n in g.stmts() if any(is_call_to_self(c, "reset_default_namespace") for c in node_calls(n))]
     ctx.ob("flush_start: reset_default_namespace() on every path to start_namespaces()", bool(rd) and all(g.must_pass(g.entry, s.id, [r.id for r in rd]) for s in sn),
@@ -478,15 +501,15 @@ def who_may_write_map(ctx: Ctx) -> None:
     for cls_q, meth in (("xsdata.formats.dataclass.serializers.xml:XmlSerializer", "write"), ("xsdata.formats.dataclass.serializers.tree:TreeSerializer", "render")):
         fi = ctx.repo.method(cls_q, meth)
         ok = False
-        for c in calls_in(fi.node):
-            k = kwarg(c, "ns_map")
-            if k is not None:
-                leaves = leaves_at(fi, c, k)
-                # every value that can reach the writer is clean_prefixes(<user map>) (a fresh dict) or an empty dict - never the caller's own object
-                ok = bool(leaves) and all((isinstance(x, ast.Call) and call_name_of(x) == "clean_prefixes") or (isinstance(x, ast.Dict) and not x.keys) or (isinstance(x, ast.Call) and unparse(x.func) == "dict" and not x.args) for x in leaves) \
-                    and any(isinstance(x, ast.Call) and call_name_of(x) == "clean_prefixes" for x in leaves)
-                ctx.ob(f"{fi.qual.split(':')[1]}: user ns_map reaches the writer only through clean_prefixes()", ok, at=fi, node=c,
-                       msg="the caller's dict would be shared with (and mutated by) the writer")
+        sites = [(c, leaves_at(fi, c, k)) for c in calls_in(fi.node) if (k := kwarg(c, "ns_map")) is not None]
+        # the user map is used at all: some writer construction receives clean_prefixes(...) (the constructions may be one per branch)
+        used = any(isinstance(x, ast.Call) and call_name_of(x) == "clean_prefixes" for _, leaves in sites for x in leaves)
+        for c, leaves in sites:
+            # every value that can reach the writer is clean_prefixes(<user map>) (a fresh dict) or an empty dict - never the caller's own object
+            ok = bool(leaves) and all((isinstance(x, ast.Call) and call_name_of(x) == "clean_prefixes") or (isinstance(x, ast.Dict) and not x.keys) or (isinstance(x, ast.Call) and unparse(x.func) == "dict" and not x.args) for x in leaves) \
+                and used
+            ctx.ob(f"{fi.qual.split(':')[1]}: user ns_map reaches the writer only through clean_prefixes()", ok, at=fi, node=c,
+                   msg="the caller's dict would be shared with (and mutated by) the writer")
         if not ok:
             ctx.ob(f"{fi.qual.split(':')[1]}: writer constructed with ns_map=clean_prefixes(...)", False, at=fi, construct="writer ns_map kw", msg="no writer construction with ns_map= found")
     cp = ctx.repo.func(f"{NSMOD}:clean_prefixes")
@@ -521,7 +544,25 @@ def dispatch_totality(ctx: Ctx) -> None:
         calls = [c.func.attr for n in d.specific(key) if n.kind != "test" for c in node_calls(n) if is_self_attr(c.func, None)]
         handled[key.split(".", 1)[1]] = calls[0] if len(set(calls)) == 1 else ",".join(sorted(set(calls)))
     else_raises = any(n.kind == "stmt" and isinstance(n.ast, ast.Raise) and n.ast.exc is not None and "XmlWriterError" in unparse(n.ast.exc) for n in d.specific(None))
+    if not handled:
+        # data-driven form: a table of (XmlWriterEvent.X, self.<receiver>) pairs (tuple / list of pairs, or a dict) that the loop looks the event up in
+        for x in walk_no_nested(w.node):
+            pairs = []
+            if isinstance(x, (ast.Tuple, ast.List)) and x.elts and all(isinstance(e, ast.Tuple) and len(e.elts) == 2 for e in x.elts):
+                pairs = [(e.elts[0], e.elts[1]) for e in x.elts]
+            elif isinstance(x, ast.Dict) and x.keys and all(k is not None for k in x.keys):
+                pairs = list(zip(x.keys, x.values))
+            if pairs and all(unparse(k).startswith("XmlWriterEvent.") and is_self_attr(v, None) for k, v in pairs):
+                handled = {unparse(k).split(".", 1)[1]: v.attr for k, v in pairs}
+                else_raises = any(isinstance(r, ast.Raise) and r.exc is not None and "XmlWriterError" in unparse(r.exc) for r in walk_no_nested(w.node))
+        if not handled:
+            ctx.abstain("event dispatch of EventHandler.write", at=w)
+            handled = None  # type: ignore[assignment]
     expect = {"START": "start_tag", "END": "end_tag", "ATTR": "add_attribute", "DATA": "set_data"}
+    if handled is None:
+        members = set()
+        else_raises = True
+        handled = {}
     for m in sorted(members):
         ctx.ob(f"write dispatches {m} to {expect.get(m, '?')}", handled.get(m) == expect.get(m, handled.get(m)) and m in handled, at=w, construct=f"dispatch {m}",
                msg=f"event {m} is dispatched to {handled.get(m)!r}")
@@ -690,12 +731,14 @@ def character_guard(ctx: Ctx) -> None:
 def default_namespace_never_qualifies_attributes_or_values(ctx: Ctx) -> None:
     """Attribute namespaces get a named prefix (the default namespace does not apply to attributes); QName values do not rely on a default that may be reset."""
     flush = ctx.repo.method(EH, "flush_start")
-    loops = [n for n in walk_no_nested(flush.node) if isinstance(n, ast.For) and "self.attrs" in unparse(n.iter)]
+    regs = _attr_namespace_registrations(flush)
+    loops = [n.ast for n, _ in regs]
     callee = None
-    for lp in loops:
-        for c in calls_in(lp):
-            if isinstance(c.func, ast.Attribute) and is_self_attr(c.func, None, ("self",)):
-                callee = ctx.repo.cls(EH).find_method(c.func.attr)
+    for _, ms in regs:
+        for m in sorted(ms):
+            cand = ctx.repo.cls(EH).find_method(m)
+            if cand is not None and "namespace" in m:
+                callee = cand
     ok = False
     if callee is not None:
         # the guard that skips prefix generation must not accept a default-namespace binding: no `prefix_exists(uri, map)` / `uri in map.values()` test
